@@ -340,6 +340,48 @@ pub fn run(tier: Tier) -> i32 {
     for v in res.into_iter().flatten() {
         rep.violation(v.0, v.1, v.2);
     }
+    // `fold --output FILE` onto a fresh path and onto a longer existing file: the file must hold exactly what stdout would
+    {
+        let mut oj: Vec<(Vec<usize>, bool)> = Vec::new();
+        for s in [vec![5usize], vec![3, 4], vec![2, 3, 2]] {
+            for stale in [false, true] {
+                oj.push((s.clone(), stale));
+            }
+        }
+        let res = par_map(oj.len(), |i| {
+            let (shape, stale) = &oj[i];
+            let x = labeled(shape, "lin");
+            let input = text_of(&x);
+            let to_stdout = run_sfs(&["fold", "--fill", "zero"], Stdin::Bytes(input.as_bytes()), &scratch);
+            let path = scratch.path(".folded.sfs");
+            if *stale {
+                std::fs::write(&path, text_of(&labeled(&[7, 7], "lin")).repeat(3)).ok();
+            }
+            let o = run_sfs(&["fold", "--fill", "zero", "--output", path.to_str().unwrap()], Stdin::Bytes(input.as_bytes()), &scratch);
+            let written = std::fs::read(&path).unwrap_or_default();
+            let _ = std::fs::remove_file(&path);
+            if o.ok() && to_stdout.ok() && written == to_stdout.stdout && o.stdout.is_empty() {
+                None
+            } else {
+                Some((
+                    format!("C05|cli|fold-output-file-differs|{}", if *stale { "existing-longer-file" } else { "fresh-path" }),
+                    format!("sfs fold --fill zero --output FILE on shape {shape:?} ({}): {}; file holds {:?}, stdout of the same command without --output is {:?}", if *stale { "FILE existed and was longer" } else { "fresh FILE" }, o.status_str(), String::from_utf8_lossy(&written), to_stdout.stdout_str()),
+                    J::obj([("kind", J::s("c05-out")), ("shape", J::usizes(shape)), ("stale", J::Bool(*stale))]),
+                ))
+            }
+        });
+        for v in res.into_iter().flatten() {
+            rep.violation(v.0, v.1, v.2);
+        }
+        rep.part(Part {
+            name: "cli: sfs fold --output".into(),
+            evaluations: oj.len() as u64,
+            nontrivial: oj.len() as u64,
+            note: "3 shapes x {fresh path, longer pre-existing file}: the file must hold exactly the bytes the command prints without --output".into(),
+            exhaustive: true,
+            extra: vec![],
+        });
+    }
     rep.part(Part {
         name: "cli: sfs fold --fill".into(),
         evaluations: cases.len() as u64,
